@@ -376,7 +376,8 @@ class Ctx:
     # ---------------------------------------------------------------- finish
     def write_replay(self, v, idx):
         h = hashlib.sha1((v.what + json.dumps(v.replay_obj, sort_keys=True, default=str)).encode()).hexdigest()[:10]
-        path = os.path.join(VERIF, "replays", "%s-%s.json" % (self.id, h))
+        # VERIF_REPLAY_DIR: runs against a seeded/mutated tree (tools/seed_matrix.py) keep their replays out of /verif/replays
+        path = os.path.join(os.environ.get("VERIF_REPLAY_DIR", os.path.join(VERIF, "replays")), "%s-%s.json" % (self.id, h))
         obj = {"property": self.id, "kind": v.kind if v.found_input else "no-failing-input-found", "seed": self.seed, "tier": self.tier,
                "what": v.what, "repo": self.repo,
                "how_to_replay": "python3 check.py %s quick --replay %s" % (self.id, path)}
